@@ -57,11 +57,18 @@ func c18kinds(rng *rand.Rand, n int, allowAdds bool) []string {
 	return out
 }
 
-var c18Kinds = []string{"direct", "analytic", "cep", "tumbling", "sliding", "session", "counting", "global", "sliding-long", "tumbling-long", "global-each"}
+var c18Kinds = []string{"direct", "analytic", "cep", "tumbling", "sliding", "session", "counting", "global", "sliding-long", "tumbling-long", "global-each", "analytic-wrapped", "sliding-late", "tumbling-late", "session-late"}
 
 var c18SQL = map[string]string{
 	"direct":   "SELECT id FROM stream",
 	"analytic": "SELECT id, lag(id) AS prev FROM stream",
+	// event time with ALLOWEDLATENESS: the two producers' timestamps interleave, so late rows re-deliver fired windows while
+	// GetStats / TriggerWindow / Stop run
+	"sliding-late":  "SELECT COUNT(*) AS c FROM stream GROUP BY SlidingWindow('40ms','20ms') WITH (TIMESTAMP='ts', TIMEUNIT='ms', ALLOWEDLATENESS='10s')",
+	"tumbling-late": "SELECT COUNT(*) AS c FROM stream GROUP BY TumblingWindow('20ms') WITH (TIMESTAMP='ts', TIMEUNIT='ms', ALLOWEDLATENESS='10s')",
+	"session-late":  "SELECT k, COUNT(*) AS c FROM stream GROUP BY k, SessionWindow('20ms') WITH (TIMESTAMP='ts', TIMEUNIT='ms', ALLOWEDLATENESS='10s')",
+	// analytic calls inside expressions: the wrapper is evaluated per row by the processor goroutine and by EmitSync callers at once
+	"analytic-wrapped": "SELECT id, lag(id) + 1 AS p1, round(lag(v), 2) AS r, CASE WHEN lag(v) > 0 THEN 'up' ELSE 'flat' END AS t FROM stream",
 	"cep":      "SELECT * FROM stream MATCH_RECOGNIZE (ORDER BY ts PATTERN (A+) DEFINE A AS v > 0)",
 	"tumbling": "SELECT COUNT(*) AS c FROM stream GROUP BY TumblingWindow('20ms')",
 	"sliding":  "SELECT COUNT(*) AS c FROM stream GROUP BY SlidingWindow('40ms','20ms')",
@@ -75,6 +82,9 @@ var c18SQL = map[string]string{
 	"sliding-long":  "SELECT COUNT(*) AS c FROM stream GROUP BY SlidingWindow('60s','30s')",
 	"tumbling-long": "SELECT COUNT(*) AS c FROM stream GROUP BY TumblingWindow('60s')",
 }
+
+// RaceCase: the free-running rounds are also executed under the race detector (./check, race pass)
+func (c18) RaceCase(c Case) bool { return len(c.Ops) == 1 && c.Ops[0][0] == "free" }
 
 func (c18) Gen(rng *rand.Rand, tier string, idx int) Case {
 	var c Case
@@ -98,7 +108,7 @@ func (c18) Gen(rng *rand.Rand, tier string, idx int) Case {
 			k := idx / 13
 			kind = c18Kinds[k%len(c18Kinds)]
 			if k < len(c18Kinds) {
-				strat = []string{"drop", "expand", "drop", "block", "expand", "drop", "block", "block", "drop", "block", "block"}[k]
+				strat = []string{"drop", "expand", "drop", "block", "expand", "drop", "block", "block", "drop", "block", "block", "drop", "drop", "expand", "drop"}[k]
 				if kind == "cep" {
 					syncs = []string{"adds", "plain"} // a re-entrant sink that is handed the matches flushed by Stop
 				}
